@@ -19,6 +19,10 @@ RStep(op, r, s) ==
   /\ CASE op[1] = "ins" -> k \notin m /\ keys' = [keys EXCEPT ![t] = m \cup {k}]
        [] op[1] = "rem" -> r[1] = (k \in m) /\ keys' = [keys EXCEPT ![t] = m \ {k}]
        [] op[1] = "get" -> keys' = keys /\ r[1] = (IF k \in m THEN k ELSE -1)
+       [] op[1] = "insn" -> LET rg == k .. k + op[4] - 1 IN
+                            r[1] = Cardinality(rg \ m) /\ keys' = [keys EXCEPT ![t] = m \cup rg]
+       [] op[1] = "remn" -> LET rg == k .. k + op[4] - 1 IN
+                            r[1] = Cardinality(rg \cap m) /\ keys' = [keys EXCEPT ![t] = m \ rg]
        [] op[1] = "swap" -> keys' = [keys EXCEPT ![t] = keys[3 - t], ![3 - t] = m]
        [] op[1] = "reset" -> keys' = [keys EXCEPT ![t] = {}]
 
